@@ -24,6 +24,7 @@ DEFAULT_FEATURES = {
     "empty_body": True,            # D10
     "explicit_false": True,        # D3: optional="false" etc. spelled out
     "comments": True,
+    "comment_special_chars": True,   # D13: backslashes / triple quotes in comments
 }
 
 FIELD_NAMES = [
@@ -102,9 +103,15 @@ class _Gen:
     def comment(self):
         if not self.f["comments"] or not self.boolean(0.15):
             return None
-        t = self.draw(st.text(alphabet=COMMENT_ALPHABET, min_size=1, max_size=24))
+        alpha = COMMENT_ALPHABET
+        special = self.f["comment_special_chars"] and self.boolean(0.15)
+        if special:
+            alpha = COMMENT_ALPHABET + '\\\\""""uxN{'
+        t = self.draw(st.text(alphabet=alpha, min_size=1, max_size=24))
         t = t.strip()
-        if not t or '"""' in t or t.endswith('"'):
+        if not t:
+            return None
+        if not self.f["comment_special_chars"] and ('"""' in t or "\\" in t):
             return None
         return t
 
